@@ -315,13 +315,13 @@ def run_case(recipe):
                             actual["defense_status"] = x.defense_status
                         for key, val in actual.items():
                             if key not in nd:
-                                bad = "%s: attribute %s not sent" % (x.full_name, key)
+                                bad = (key + ":not-sent", "%s: attribute %s not sent" % (x.full_name, key))
                             elif not _prop_ok(nd[key], val):
-                                bad = "%s: %s sent as %r, is %r" % (x.full_name, key, nd[key], val)
+                                bad = (key + ":wrong-value", "%s: %s sent as %r, is %r" % (x.full_name, key, nd[key], val))
                         if x.asset is not None and not (nd.has_label(str(x.asset.name)) or nd.get("asset") == str(x.asset.name)):
-                            bad = "%s: asset %s neither label nor property" % (x.full_name, str(x.asset.name))
-                    r.check("C19.graph.attributes", bad is None, FN_IG, bad or "",
-                            re.sub(r"^[^:]*:[^:]*: ", "", bad).split(" ")[0] if bad else None)
+                            bad = ("asset:not-sent", "%s: asset %s neither label nor property" % (
+                                x.full_name, str(x.asset.name)))
+                    r.check("C19.graph.attributes", bad is None, FN_IG, bad[1] if bad else "", bad[0] if bad else None)
                     name_of = {id(nd): fn for fn, nd in by_name.items()}
                     got = Counter((name_of.get(id(rel.start_node)), name_of.get(id(rel.end_node))) for rel in db2.rels)
                     missing = [e for e in edges if got[e] < 1]
